@@ -585,7 +585,7 @@ fn built_lane(ctx: &mut Ctx, idx: u64) {
     let o = GOpts { name_pool: Some(&POOL), ..GOpts::default() };
     let np = r.range(1, 2);
     let model: Content = (0..np)
-        .map(|_| (0..r.range(if np == 1 { 0 } else { 1 }, 3)).map(|_| (gen::gen_name(&mut r, &o), gen_value(&mut r, &mut uniq))).collect())
+        .map(|_| (0..r.range(if np == 1 { 0 } else { 1 }, 3)).map(|_| (gen::gen_name(&mut r, &o), if r.chance(1, 8) { String::new() } else { gen_value(&mut r, &mut uniq) })).collect())
         .collect();
     let how = idx % 4;
     let build_para = |fields: &Vec<(String, String)>| -> Paragraph {
